@@ -11,8 +11,7 @@ Require Import Cirbo.Proofs.DictFacts Cirbo.Proofs.BuilderFacts Cirbo.Proofs.Ari
   Cirbo.Proofs.ArithSumCells Cirbo.Proofs.ArithSumPow2Facts Cirbo.Proofs.ArithSumStruct
   Cirbo.Proofs.ArithMulFacts Cirbo.Proofs.ArithMulDiag
   Cirbo.Proofs.ArithMulDadda Cirbo.Proofs.ArithMulPow2 Cirbo.Proofs.ArithMulKara Cirbo.Proofs.ArithMulWallace
-  Cirbo.Proofs.ArithSquareFacts Cirbo.Proofs.ArithMulLen Cirbo.Proofs.ArithMulCount Cirbo.Proofs.ArithMulStruct
-  Cirbo.Proofs.ArithMulStructA Cirbo.Proofs.ArithMulStructB Cirbo.Proofs.ArithMulStructC.
+  Cirbo.Proofs.ArithSquareFacts Cirbo.Proofs.ArithMulLen Cirbo.Proofs.ArithMulCount.
 Open Scope Z_scope.
 
 Definition product_clause (c c' : circuit) (xs ys rs : list label) (be : bool) : Prop :=
@@ -129,50 +128,13 @@ Proof.
   intros He. apply square_clause_intro; [exact X|]. apply V; [apply ext_refl|exact He].
 Qed.
 
-(* ---- the computed structural facts -------------------------------------------------------------------------------------- *)
+(* the computed structural facts (bounded widths, harness naming function) are in ArithMulStructFinal.v *)
 Definition all_mul_fns : list mulfn := [FMul; FAlter; FDadda; FWallace; FPow2m1; FKaratsuba; FKaratsubaEff].
-
-Theorem mul_struct_ok_meaning f n m : mul_struct_ok f (n, m) = true ->
-  exists c rs s',
-    bare (n + m) = Ok c /\
-    run hex_label (run_mulfn f (firstn n (in_labels (n + m) 0)) (skipn n (in_labels (n + m) 0)) false) (mkB c 1)
-      = Ok (rs, s') /\
-    length rs = mul_len n m /\ has_gate (bc s') "" = false /\ has_gate (bc s') PLACEHOLDER_STR = false.
-Proof.
-  unfold mul_struct_ok. destruct (bare (n + m)) as [c|]; [|discriminate].
-  destruct (run hex_label _ (mkB c 1)) as [[rs s']|] eqn:E; [|discriminate]. intros H.
-  apply andb_true_iff in H as (H & H3). apply andb_true_iff in H as (H1 & H2).
-  exists c, rs, s'. split; [reflexivity|]. split; [exact E|]. split; [apply Nat.eqb_eq, H1|].
-  split; [apply negb_true_iff, H2|apply negb_true_iff, H3].
-Qed.
-
-Theorem mul_struct_upto6 : forallb (fun f => forallb (mul_struct_ok f) (pairs_upto 6)) all_mul_fns = true.
-Proof.
-  unfold all_mul_fns. cbn [forallb].
-  pose proof mul_struct_karatsuba_upto6 as HK. apply andb_true_iff in HK as (HK1 & HK2).
-  rewrite mul_struct_default_upto6, mul_struct_alter_upto6, mul_struct_dadda_upto6, mul_struct_wallace_upto6,
-    mul_struct_pow2_m1_upto6, HK1, HK2. reflexivity.
-Qed.
-
-Theorem square_struct_ok_meaning t n : square_struct_ok t n = true ->
-  exists c rs s',
-    bare n = Ok c /\ run hex_label (process_square t (in_labels n 0) false) (mkB c 1) = Ok (rs, s') /\
-    length rs = sq_len n /\ has_gate (bc s') "" = false.
-Proof.
-  unfold square_struct_ok. destruct (bare n) as [c|]; [|discriminate].
-  destruct (run hex_label _ (mkB c 1)) as [[rs s']|] eqn:E; [|discriminate]. intros H.
-  apply andb_true_iff in H as (H1 & H2).
-  exists c, rs, s'. split; [reflexivity|]. split; [exact E|]. split; [apply Nat.eqb_eq, H1|apply negb_true_iff, H2].
-Qed.
 
 Theorem result_length_formulas :
   (forall n m, mul_len n m = if ((n =? 1) || (m =? 1))%nat then (n + m - 1)%nat else (n + m)%nat) /\
   (forall n, sq_len n = if (n =? 1)%nat then 1%nat else (2 * n)%nat).
 Proof. split; reflexivity. Qed.
-
-Theorem square_struct_upto8 :
-  forallb (square_struct_ok SDefault) (seq 1 8) && forallb (square_struct_ok SPow2m1) (seq 1 8) = true.
-Proof. exact ArithMulStructC.square_struct_upto8. Qed.
 
 Theorem last_step_final fresh xs ys be s rs s' :
   run fresh (last_step_sum_with_new_powers_sum xs ys be) s = Ok (rs, s') ->
